@@ -11,7 +11,10 @@ def run(ctx, v, path):
         if 'kv' in v:
             if n in T.get('excluded', []):
                 print('schema %s no longer compiles' % n); return 1
-            r = layer_t.replay(T, n, v['kv'])
+            if v.get('twin'):
+                r = layer_t.replay_diff(T, n, v['twin'], v.get('diff_full', True), v['kv'])
+            else:
+                r = layer_t.replay(T, n, v['kv'])
             print('replay of schema %s on %s: %s %s' % (n, v.get('tables'), r['status'], r.get('what') or ''))
             if r['status'] == 'fail':
                 print('VIOLATION property=%s replay=%s' % (ctx.prop, path)); return 1
